@@ -575,6 +575,10 @@ def check_C18(ctx):
               replay=lambda rec: {"kind": "bytes", "case": {"Seed": rec["seed"], "ID": rec["id"], "Defaulted": rec["defaulted"]}})
     ctx.add_samples(shards, 1)
     ctx.extra["domains"] = [meta]
+    # per reconcile: every orphaned revision that carries the marker is adopted, whatever mix of label-synced and unsynced
+    # revisions an interrupted earlier reconcile left behind
+    snap_trace(ctx, "own-revs", "own-revs", 2, 2, 5, 15000 if q else 0, ["P_C18S"], 181)
+    snap_trace(ctx, "history", "history", 2, 2, 5, 30000 if q else 500000, ["P_C18S"], 182)
     # behaviour part: the garbage collector orphans pods and revisions one at a time while the controller reconciles
     cluster_check(ctx, ["B_C18"], ["P_C03", "P_C13"], invariants=[], properties=["MigrationSafe", "MigrationCompletes"], mode="migration", edits=0)
     ctx.assumptions.append("byte identity is judged against a reference encoder built on client-go's apps/v1 scheme with the upstream patch shape; "
